@@ -31,10 +31,14 @@ Generator tree (program = one func.func @f, <= 2 arguments; constants are not co
 
 Signatures
   wrong values      C14|<pass>|<op>[|<predicate>]|<operand pattern>|<wrong-result|wrong-effects|introduces-poison|does-not-verify>
-  pass raised       C14|<pass>|raises|<ExceptionClass>|<op>
+  pass raised       C14|<pass>|raises|<ExceptionClass>|<op>      (<op> = the op the rewrite pattern was applied to)
 For multi-op programs the blamed <op> is found by re-running the pass on every contiguous window of the
-program (earlier results turned into fresh arguments), smallest first: a chain re-finds the single-op
-signature when one op alone already fails and is reported as "opA->opB" only when it takes both.
+program, smallest first, with the results of earlier ops turned into fresh arguments and -- when that does
+not reproduce the failure -- into the constants they evaluate to on the failing input (a wrong fold of op B
+that needs op A to have been folded first is op B's (const,const) finding): a chain re-finds the single-op
+signature when one op alone already fails and is reported as "opA->opB" only when it takes both.  A failure
+of the pipeline that one of its passes shows on its own (on the program or on the blamed window) is recorded
+under that pass.  Control-flow templates are labelled <construct>|<template variant>.
 """
 from __future__ import annotations
 
@@ -89,7 +93,7 @@ def int_consts(t: str, level: int) -> list[int]:
     if level == 0:
         return [0, 1, -1]
     if level == 1:
-        return [0, 1, -1, 2, lo, hi, w - 1]
+        return [0, 1, -1, lo, hi, w - 1]
     return [0, 1, -1, 2, lo, hi, w, w - 1, 1 << (w - 2)]
 
 
@@ -1201,7 +1205,7 @@ def run(ctx):
         "chains": ("2-op chains: i8 over " + str(list(IBIN3)) + " x the same, and select / casts / i1 ops after each cmpi predicate; "
                    "f32 over addf subf mulf divf negf x the same, select after each cmpf predicate; constants {0,1,-1} / "
                    "{+0,-0,1,-1,inf,NaN} (select slots {0,-1} / {+0,NaN})" if quick else
-                   "2-op chains: i8 and f32 over every listed op x every listed op with constants {0,1,-1,2,min,max,w-1} / "
+                   "2-op chains: i8 and f32 over every listed op x every listed op with constants {0,1,-1,min,max,w-1} / "
                    "{+0,-0,1,-1,inf,NaN,0.1} and all-constant first ops over {0,1,-1} / {+0,-0,1,-1,inf,NaN}; i1 i32 i64 index f64 over "
                    f"the two-operand ops (+negf) with constants {{0,1,-1}} / {{+0,-0,1,-1,inf,NaN}}; 3-op chains over {list(IBIN4)} "
                    "on i8 with constants {0,-1}; chains use the quick input grid"),
